@@ -118,6 +118,44 @@ Proof.
   intro Hs. destruct (bracket_restores_gen e t s) as [H1 H2]. apply views_combine; assumption.
 Qed.
 
+(* the time-out path: whatever the condemned thread still does during the grace join is covered *)
+Lemma timeout_restores_gen e t1 t2 s :
+  rest_view (exec_timeout e t1 t2 s) = rest_view s /\ std_streams (exec_timeout e t1 t2 s).
+Proof.
+  unfold exec_timeout. cbv zeta. destruct (view_make_deterministic e s) as [Hv _]. rewrite <- Hv.
+  set (s1 := make_deterministic e s).
+  pose proof (run_stmts_pyn e t1 (enter s1)) as Hp1.
+  pose proof (run_stmts_fds e t1 (enter s1)) as [A0 [A1 A2]].
+  set (s2 := fst (run_stmts e t1 (enter s1))) in *.
+  pose proof (run_stmts_pyn e t2 s2) as Hp2.
+  pose proof (run_stmts_fds e t2 s2) as [B0 [B1 B2]].
+  change (restore_logging (save s1) (osc_restore (save s1) (fst (run_stmts e t2 s2))))
+    with (restore (save s1) (fst (run_stmts e t2 s2))).
+  apply restore_view; [reflexivity| | | | ].
+  - rewrite Hp2, Hp1. destruct s1; reflexivity.
+  - intro H. apply B0 in H. apply A0 in H. destruct s1; exact H.
+  - intro H. apply B1 in H. apply A1 in H. destruct s1; exact H.
+  - intro H. apply B2 in H. apply A2 in H. destruct s1; exact H.
+Qed.
+
+Theorem timeout_restores e t1 t2 s :
+  std_streams s -> pyn_view (exec_timeout e t1 t2 s) = pyn_view s.
+Proof.
+  intro Hs. destruct (timeout_restores_gen e t1 t2 s) as [H1 H2]. apply views_combine; assumption.
+Qed.
+
+(* handing the logging level back BEFORE the grace join would not do: the condemned thread may still
+   call logging.disable while the calling thread waits for it *)
+Theorem early_logging_restore_refuted :
+  exists e t1 t2 s, std_streams s /\ pyn_view (exec_timeout_early_logging e t1 t2 s) <> pyn_view s.
+Proof.
+  exists {| cfg_seed := 0; table := [] |}, [], [LogDisable 50],
+    {| s_out := Std; s_err := Std; s_in := Std; nullw_closed := false; nullr_closed := false;
+       fd0 := true; fd1 := true; fd2 := true; logd := 0;
+       mod_rng := (0, O); inst_rng := (0, O); pyn_rng := (0, O); counter := 0 |}.
+  split; [split; reflexivity|]. vm_compute. discriminate.
+Qed.
+
 (* with a replaced sys.stdout (an application embedding Pynguin, a test runner capturing output)
    the stream is NOT the one from before *)
 Definition refute_proc : proc :=
@@ -137,11 +175,15 @@ Proof. destruct sv as [? ? [|] [|] [|]], s; reflexivity. Qed.
 (* the part of the process state an execution can depend on and the bracket hands back *)
 Definition ambient (s : proc) := (fd0 s, fd1 s, fd2 s, logd s).
 
+Lemma rest_view_ambient s' s : rest_view s' = rest_view s -> ambient s' = ambient s.
+Proof. unfold rest_view, ambient. intro H. inversion H. reflexivity. Qed.
+
 Lemma item_step_ambient e s i : ambient (item_step e s i) = ambient s.
 Proof.
-  unfold ambient. destruct i; simpl.
-  - destruct (bracket_restores_gen e t s) as [H _]. unfold rest_view in H. inversion H. reflexivity.
-  - destruct s. cbn. destruct pyn_rng0. reflexivity.
+  destruct i; simpl.
+  - apply rest_view_ambient. apply (proj1 (bracket_restores_gen e t s)).
+  - apply rest_view_ambient. apply (proj1 (timeout_restores_gen e t1 t2 s)).
+  - unfold ambient. destruct s. cbn. destruct pyn_rng0. reflexivity.
 Qed.
 
 Lemma run_items_ambient e l : forall s, ambient (run_items e s l) = ambient s.
@@ -156,9 +198,11 @@ Lemma run_items_execs_view e l : forall s,
 Proof.
   unfold run_items. induction l as [|i l IH]; intros s Hs H; simpl; [reflexivity|].
   inversion H as [|? ? Hi Hl]. subst.
-  destruct i as [t|]; [|congruence]. simpl.
-  rewrite IH; [apply bracket_restores; exact Hs| |exact Hl].
-  apply (proj2 (bracket_restores_gen e t s)).
+  destruct i as [t|t1 t2|]; [| |congruence]; simpl.
+  - rewrite IH; [apply bracket_restores; exact Hs| |exact Hl].
+    apply (proj2 (bracket_restores_gen e t s)).
+  - rewrite IH; [apply timeout_restores; exact Hs| |exact Hl].
+    apply (proj2 (timeout_restores_gen e t1 t2 s)).
 Qed.
 
 (* ---------- results do not depend on what ran before ---------- *)
